@@ -14,6 +14,7 @@ struct in {
 	int has_tv; long tv_sec, tv_usec;
 	int res_fail; int err;              /* poll fails with errno err */
 	int has_lock, realloc_copy;
+	int grow;                           /* with a lock: entries another thread adds (poll_add) while the dispatching thread waits with the lock released */
 	ev_uint32_t seed;
 	unsigned ch[VF_NCHOICE];
 };
@@ -68,6 +69,9 @@ int poll(struct pollfd *fds, nfds_t nfds, int timeout)
 		__CPROVER_assert(timeout == (ms > INT_MAX ? INT_MAX : (int)ms), "poll: timeout is the caller's timeval rounded up to ms, capped at INT_MAX");
 	}
 	g_polled++;
+	/* the base lock is released here: another thread may call poll_add meanwhile, which (within the array's capacity)
+	 * appends live entries and bumps pop->nfds; the dispatching thread works on its copy and its own snapshot of nfds */
+	if (USE_COPY) { POP.nfds = IN.nfds + IN.grow; POP.realloc_copy = POP.realloc_copy || (IN.grow != 0); }
 	if (IN.res_fail) { errno = IN.err; return -1; }
 	for (k = 0; k < NP; k++) { if (k >= IN.nfds) break; fds[k].revents = IN.rev[k]; }
 	return NREADY;
@@ -99,7 +103,7 @@ VF_CONTRACT(int, poll_dispatch_c, struct event_base *base, struct timeval *tv)
 __CPROVER_requires(base == &BASE && tv == (IN.has_tv ? &TV : NULL))
 __CPROVER_requires(g_polled == 0 && g_act_total == 0 && g_act_foreign == 0 && g_mm_realloc_calls == 0)
 __CPROVER_assigns(g_polled, g_act_total, g_act_foreign, __CPROVER_object_whole(g_act_calls), __CPROVER_object_whole(g_act_ev), g_mm_realloc_calls, g_mm_realloc_ok,
-	g_lock_depth[1], g_lock_ops, POP.event_set_copy, POP.realloc_copy, BASE.weakrand_seed.seed, errno, vf_nchoice_,
+	g_lock_depth[1], g_lock_ops, POP.event_set_copy, POP.realloc_copy, POP.nfds, BASE.weakrand_seed.seed, errno, vf_nchoice_,
 	__CPROVER_object_whole(COPY))
 __CPROVER_assigns(!USE_COPY: __CPROVER_object_whole(PSET))
 /* 1 result */
@@ -111,7 +115,7 @@ __CPROVER_ensures(IMP(IN.has_lock, g_lock_depth[1] == 1))
 /* 4 a failed wait reports nothing; never a report for an fd that is not in the array */
 __CPROVER_ensures(IMP(IN.res_fail || COPY_FAIL, g_act_total == 0) && g_act_foreign == 0)
 /* 5 multithreaded: the live array is untouched (other threads may change it while we wait) */
-__CPROVER_ensures(IMP(USE_COPY, POP.event_set == PSET && POP.nfds == IN.nfds))
+__CPROVER_ensures(IMP(USE_COPY && g_polled == 1, POP.event_set == PSET && POP.nfds == IN.nfds + IN.grow))
 ;
 
 void harness(void)
@@ -119,6 +123,7 @@ void harness(void)
 	int r, k, j;
 	VF_LOAD_IN();
 	__CPROVER_assume(IN.nfds >= 0 && IN.nfds <= IN.event_count && IN.event_count <= NP && IN.err > 0);
+	__CPROVER_assume(IN.grow >= 0 && IN.grow <= IN.event_count - IN.nfds && IMP(!IN.has_lock, IN.grow == 0));
 	__CPROVER_assume(IN.tv_usec >= 0 && IN.tv_usec < 1000000 && IN.tv_sec >= 0 && IN.tv_sec <= (LONG_MAX - 999) / 1000);   /* normalised, from timeout_next */
 	/* one entry per fd (poll_add/poll_del: pollidx names the fd's single entry) */
 	for (k = 0; k < NP; k++) for (j = 0; j < k; j++) __CPROVER_assume(IN.fds[j] != IN.fds[k]);
